@@ -36,6 +36,13 @@ pub use serde_json;
 
 pub const VERIF_DIR: &str = "/verif";
 
+/// Base directory for known_findings.json, evidence/ and replays/. Always
+/// /verif for registered checks; scratch evaluations of seeded changes set
+/// VP_VERIF_DIR so that they do not overwrite the evidence of real runs.
+pub fn verif_dir() -> String {
+    std::env::var("VP_VERIF_DIR").unwrap_or_else(|_| VERIF_DIR.to_string())
+}
+
 #[derive(Clone, Copy, Debug, PartialEq, Eq)]
 pub enum Tier {
     Quick,
@@ -150,7 +157,7 @@ pub struct Findings {
 
 impl Findings {
     pub fn load() -> Self {
-        let path = format!("{VERIF_DIR}/known_findings.json");
+        let path = format!("{}/known_findings.json", verif_dir());
         match std::fs::read_to_string(&path) {
             Ok(s) => serde_json::from_str(&s).unwrap_or_else(|e| {
                 eprintln!("cannot parse {path}: {e}");
@@ -453,7 +460,7 @@ impl Prop {
         };
         let text = serde_json::to_string_pretty(&body).unwrap();
         let h = digest(&text);
-        let dir = format!("{VERIF_DIR}/replays");
+        let dir = format!("{}/replays", verif_dir());
         let _ = std::fs::create_dir_all(&dir);
         let path = format!("{dir}/{}-{}-{:016x}.json", self.id, sub, h);
         if !self.is_replay() {
@@ -733,7 +740,7 @@ impl Prop {
             "wall_s": self.start.elapsed().as_secs_f64(),
             "violations": violations.len(),
         });
-        let dir = format!("{VERIF_DIR}/evidence");
+        let dir = format!("{}/evidence", verif_dir());
         let _ = std::fs::create_dir_all(&dir);
         let path = PathBuf::from(format!("{dir}/{}.json", self.id));
         std::fs::write(&path, serde_json::to_string_pretty(&ev).unwrap() + "\n")
